@@ -12,7 +12,7 @@ let implode (l : char list) : string = String.of_seq (List.to_seq l)
 
 let is_safe c =
   (c >= 'a' && c <= 'z') || (c >= 'A' && c <= 'Z') || (c >= '0' && c <= '9')
-  || c = '_' || c = '.' || c = ':' || c = '/' || c = '*'
+  || c = '_' || c = '.' || c = '/' || c = '*'
 
 let enc (l : char list) : string =
   if l = [] then "~" else begin
@@ -112,9 +112,279 @@ let pred_rm maxd ops qs impl =
   if List.length ans <> List.length qs then false
   else List.for_all2 (fun q a -> c03_pred maxd h q (parse_ans q a)) qs ans
 
+(* ---------- engine: the whole enforcer (Engine.v) ---------- *)
+let rec pos_of_int n = if n = 1 then XH else if n land 1 = 0 then XO (pos_of_int (n / 2)) else XI (pos_of_int (n / 2))
+let z_of_int n = if n = 0 then Z0 else if n > 0 then Zpos (pos_of_int n) else Zneg (pos_of_int (- n))
+
+(* expression s-expressions: (and,(eq,(var,r,sub),(lit,s.alice)),...) *)
+let parse_scalar_tok t =
+  let k = String.sub t 0 2 and r = String.sub t 2 (String.length t - 2) in
+  match k with
+  | "s." -> SStr (dec r) | "i." -> SInt (z_of_int (int_of_string r)) | "b." -> SBool (r = "1")
+  | _ -> failwith ("scalar " ^ t)
+
+type sx = Atom of string | Node of sx list
+let parse_sx (s : string) : sx =
+  let n = String.length s in
+  let pos = ref 0 in
+  let rec item () =
+    if !pos < n && s.[!pos] = '(' then begin
+      incr pos;
+      let items = ref [] in
+      let continue = ref true in
+      while !continue do
+        items := item () :: !items;
+        if !pos < n && s.[!pos] = ',' then incr pos
+        else if !pos < n && s.[!pos] = ')' then (incr pos; continue := false)
+        else failwith ("sx syntax at " ^ string_of_int !pos ^ " in " ^ s)
+      done;
+      Node (List.rev !items)
+    end else begin
+      let st = !pos in
+      while !pos < n && s.[!pos] <> ',' && s.[!pos] <> ')' && s.[!pos] <> '(' do incr pos done;
+      Atom (String.sub s st (!pos - st))
+    end in
+  item ()
+
+let rec expr_of_sx (x : sx) : expr =
+  let a = function Atom t -> t | _ -> failwith "atom expected" in
+  match x with
+  | Node [Atom "lit"; Atom t] -> ELit (parse_scalar_tok t)
+  | Node [Atom "var"; p; f] -> EVar (dec (a p), dec (a f))
+  | Node [Atom "prop"; e; f] -> EProp (expr_of_sx e, dec (a f))
+  | Node [Atom "eq"; x; y] -> EEq (expr_of_sx x, expr_of_sx y)
+  | Node [Atom "neq"; x; y] -> ENeq (expr_of_sx x, expr_of_sx y)
+  | Node [Atom "lt"; x; y] -> ECmp (CLt, expr_of_sx x, expr_of_sx y)
+  | Node [Atom "le"; x; y] -> ECmp (CLe, expr_of_sx x, expr_of_sx y)
+  | Node [Atom "gt"; x; y] -> ECmp (CGt, expr_of_sx x, expr_of_sx y)
+  | Node [Atom "ge"; x; y] -> ECmp (CGe, expr_of_sx x, expr_of_sx y)
+  | Node [Atom "and"; x; y] -> EAnd (expr_of_sx x, expr_of_sx y)
+  | Node [Atom "or"; x; y] -> EOr (expr_of_sx x, expr_of_sx y)
+  | Node [Atom "not"; x] -> ENot (expr_of_sx x)
+  | Node (Atom "in" :: x :: xs) -> EIn (expr_of_sx x, List.map expr_of_sx xs)
+  | Node (Atom "call" :: f :: args) -> ECall (dec (a f), List.map expr_of_sx args)
+  | Node [Atom "eval"; p; f] -> EEval (dec (a p), dec (a f))
+  | _ -> failwith "expr sx"
+let expr_of_string s = expr_of_sx (parse_sx s)
+
+(* {expr} occurrences in a line: positions *)
+let braces (line : string) : (int * int) list =
+  let res = ref [] and st = ref (-1) in
+  String.iteri (fun i c -> if c = '{' then st := i
+                 else if c = '}' && !st >= 0 then (res := (!st, i) :: !res; st := -1)) line;
+  List.rev !res
+
+(* prep: replace every {expr} by the encoded matcher text print_expr produces *)
+let prep_line (line : string) : string =
+  let b = Buffer.create (String.length line) in
+  let last = ref 0 in
+  List.iter (fun (i, j) ->
+      Buffer.add_string b (String.sub line !last (i - !last));
+      let e = expr_of_string (String.sub line (i + 1) (j - i - 1)) in
+      Buffer.add_string b (enc (print_expr e));
+      last := j + 1) (braces line);
+  Buffer.add_string b (String.sub line !last (String.length line - !last));
+  Buffer.contents b
+
+(* eval() parse table: escaped printed text -> expression *)
+let ptab_of_line (line : string) : (char list * expr) list =
+  List.map (fun (i, j) ->
+      let e = expr_of_string (String.sub line (i + 1) (j - i - 1)) in
+      (escape_assertion (print_expr e), e)) (braces line)
+
+(* a rule field may be {expr}: the policy then stores its printed text *)
+let dec_field s =
+  if String.length s > 0 && s.[0] = '{' then
+    print_expr (expr_of_string (String.sub s 1 (String.length s - 2)))
+  else dec s
+(* split on c outside {...} *)
+let split_outside (c : char) (s : string) : string list =
+  let res = ref [] and cur = Buffer.create 16 and depth = ref 0 in
+  String.iter (fun ch ->
+      if ch = '{' then incr depth else if ch = '}' then decr depth;
+      if ch = c && !depth = 0 then (res := Buffer.contents cur :: !res; Buffer.clear cur)
+      else Buffer.add_char cur ch) s;
+  List.rev (Buffer.contents cur :: !res)
+let dec_rule s = if s = "!" then [] else List.map dec_field (split_outside ',' s)
+let dec_rules s = if s = "-" then [] else List.map dec_rule (split_outside ';' s)
+
+let parse_val s : value =
+  if String.length s >= 2 && String.sub s 0 2 = "m." then begin
+    let r = String.sub s 2 (String.length s - 2) in
+    VMap (if r = "" then [] else
+            List.map (fun kv -> match String.index_opt kv '=' with
+                | Some i -> (dec (String.sub kv 0 i),
+                             parse_scalar_tok (String.sub kv (i + 1) (String.length kv - i - 1)))
+                | None -> failwith "map kv") (String.split_on_char '&' r))
+  end else of_scalar (parse_scalar_tok s)
+let parse_vals s = if s = "!" then [] else List.map parse_val (String.split_on_char ',' s)
+
+let effect_text = function
+  | "AO" -> explode "some(where (p.eft == allow))"
+  | "DO" -> explode "!some(where (p.eft == deny))"
+  | "AD" -> explode "some(where (p.eft == allow)) && !some(where (p.eft == deny))"
+  | "PR" -> explode "priority(p.eft) || deny"
+  | s -> dec (String.sub s 1 (String.length s - 1))
+
+let join_text sep l = explode (String.concat sep (List.map implode l))
+let mk_ast v toks = { a_value = v; a_tokens = toks; a_policy = []; a_handle = HOwn }
+
+(* r=sub,obj,act;p=...;g=2;e=AO;m={expr}  ->  modeldef; sections in load order r p e m g,
+   keys of a section in order of appearance (suffixes 2,3,... without gaps) *)
+let modeldef_of_spec (spec : string) : modeldef =
+  let secs = Hashtbl.create 8 in
+  let add sec k a = Hashtbl.replace secs sec ((try Hashtbl.find secs sec with Not_found -> []) @ [(explode k, a)]) in
+  let mx = ref [] in
+  List.iter (fun kv ->
+      if kv <> "" then
+        let i = String.index kv '=' in
+        let k = String.sub kv 0 i and v = String.sub kv (i + 1) (String.length kv - i - 1) in
+        match k.[0] with
+        | 'r' | 'p' ->
+          let flds = List.map dec (String.split_on_char ',' v) in
+          add (String.make 1 k.[0]) k
+            (mk_ast (join_text ", " flds) (List.map (fun f -> explode k @ ('_' :: f)) flds))
+        | 'g' ->
+          let n = int_of_string v in
+          add "g" k (mk_ast (explode (String.concat ", " (List.init n (fun _ -> "_")))) [])
+        | 'e' -> add "e" k (mk_ast (escape_assertion (effect_text v)) [])
+        | 'm' ->
+          let e = expr_of_string (String.sub v 1 (String.length v - 2)) in
+          add "m" k (mk_ast (escape_assertion (print_expr e)) []);
+          mx := !mx @ [(explode k, e)]
+        | _ -> failwith ("model spec " ^ kv)) (split_outside ';' spec);
+  let md = List.filter_map (fun sec ->
+      match Hashtbl.find_opt secs sec with
+      | Some am -> Some (explode sec, am) | None -> None) ["r"; "p"; "e"; "m"; "g"] in
+  { d_model = md; d_mexprs = !mx }
+
+let rec adapter_of_parts (parts : string list) : adapter =
+  match parts with
+  | ["N"] -> ANull
+  | ["M"; l; f] -> AMemory (dec_rules l, f = "1")
+  | ["F"; l; f] -> AFile (dec_rules l, f = "1")
+  | ["S"; l; f] -> AString (dec_rules l, f = "1")
+  | "X" :: rest ->
+    let n = List.length rest in
+    let inner = List.filteri (fun i _ -> i < n - 1) rest and sc = List.nth rest (n - 1) in
+    AScripted (adapter_of_parts inner,
+               if sc = "-" then [] else
+                 List.map (function 'p' -> RPass | 'r' -> RRefuse | 'f' -> RFail | 'l' -> RFailLate
+                                  | 'h' -> RFailPartial | _ -> failwith "script") (explode sc))
+  | _ -> failwith "adapter spec"
+let adapter_of_spec s = adapter_of_parts (String.split_on_char '@' s)
+
+let ufun_of = function "eq" -> UEq | "neq" -> UNeq | "prefix" -> UPrefix | "true" -> UTrue
+                       | _ -> failwith "ufun"
+
+type stepk = SOp of op | SQuery of query | SWlog | SReload
+
+let step_of (st : string) : stepk =
+  let f = String.split_on_char ':' st in
+  let b s = s = "1" in
+  match f with
+  | ["A"; sec; pt; r] -> SOp (OAdd (explode sec, dec pt, dec_rule r))
+  | ["AM"; sec; pt; rs] -> SOp (OAddMany (explode sec, dec pt, dec_rules rs))
+  | ["R"; sec; pt; r] -> SOp (ORemove (explode sec, dec pt, dec_rule r))
+  | ["RM"; sec; pt; rs] -> SOp (ORemoveMany (explode sec, dec pt, dec_rules rs))
+  | ["RF"; sec; pt; i; v] -> SOp (ORemoveFiltered (explode sec, dec pt, nat_of_int (int_of_string i), dec_rule v))
+  | ["ap"; u; p] -> SOp (ORbac (RAddPermission (dec u, dec_rule p)))
+  | ["aps"; u; ps] -> SOp (ORbac (RAddPermissions (dec u, dec_rules ps)))
+  | ["ar"; u; r; d] -> SOp (ORbac (RAddRole (dec u, dec r, opt_of d)))
+  | ["ars"; u; rs; d] -> SOp (ORbac (RAddRoles (dec u, dec_rule rs, opt_of d)))
+  | ["dr"; u; r; d] -> SOp (ORbac (RDeleteRole (dec u, dec r, opt_of d)))
+  | ["drs"; u; d] -> SOp (ORbac (RDeleteRoles (dec u, opt_of d)))
+  | ["du"; n] -> SOp (ORbac (RDeleteUser (dec n)))
+  | ["dra"; n] -> SOp (ORbac (RDeleteRoleAll (dec n)))
+  | ["dp"; p] -> SOp (ORbac (RDeletePermission (dec_rule p)))
+  | ["dpf"; u; p] -> SOp (ORbac (RDeletePermissionFor (dec u, dec_rule p)))
+  | ["dpsf"; u] -> SOp (ORbac (RDeletePermissionsFor (dec u)))
+  | ["CL"] -> SOp OClear | ["LD"] -> SOp OLoad
+  | ["LF"; fp; fg] -> SOp (OLoadFiltered (dec_rule fp, dec_rule fg))
+  | ["SV"] -> SOp OSave | ["BR"] -> SOp OBuildRoleLinks
+  | ["SM"; spec] -> SOp (OSetModel (modeldef_of_spec spec))
+  | ["SA"; spec] -> SOp (OSetAdapter (adapter_of_spec spec))
+  | ["SR"; n] -> SOp (OSetRoleManager (nat_of_int (int_of_string n)))
+  | ["SE"] -> SOp OSetEffector
+  | ["AF"; n; u] -> SOp (OAddFunction (dec n, ufun_of u))
+  | ["EE"; x] -> SOp (OEnableEnforce (b x)) | ["ES"; x] -> SOp (OEnableAutoSave (b x))
+  | ["EB"; x] -> SOp (OEnableAutoBuild (b x)) | ["EN"; x] -> SOp (OEnableAutoNotify (b x))
+  | ["?e"; v] -> SQuery (QEnforce (parse_vals v))
+  | ["?ec"; k; v] -> SQuery (QEnforceCtx (dec k, parse_vals v))
+  | ["?gp"; sec; pt] -> SQuery (QGetPolicy (explode sec, dec pt))
+  | ["?ga"; sec] -> SQuery (QGetAll (explode sec))
+  | ["?hp"; sec; pt; r] -> SQuery (QHasPolicy (explode sec, dec pt, dec_rule r))
+  | ["?gf"; sec; pt; i; v] -> SQuery (QGetFiltered (explode sec, dec pt, nat_of_int (int_of_string i), dec_rule v))
+  | ["?vl"; sec; pt; i] -> SQuery (QValues (explode sec, dec pt, nat_of_int (int_of_string i)))
+  | ["?rf"; n; d] -> SQuery (QRolesFor (dec n, opt_of d))
+  | ["?uf"; n; d] -> SQuery (QUsersFor (dec n, opt_of d))
+  | ["?hr"; n; r; d] -> SQuery (QHasRole (dec n, dec r, opt_of d))
+  | ["?ir"; n; d] -> SQuery (QImplicitRoles (dec n, opt_of d))
+  | ["?pf"; n; d] -> SQuery (QPermsFor (dec n, opt_of d))
+  | ["?ip"; n; d] -> SQuery (QImplicitPerms (dec n, opt_of d))
+  | ["?iu"; p] -> SQuery (QImplicitUsers (dec_rule p))
+  | ["?if"] -> SQuery QIsFiltered
+  | ["?hl"; a; b; d] -> SQuery (QHasLink (dec a, dec b, opt_of d))
+  | ["?wl"] -> SWlog
+  | ["?rv"] -> SReload
+  | _ -> failwith ("step " ^ st)
+
+let errc_str = function
+  | ERequest -> "ER" | EPolicy -> "EP" | EEvalc -> "EV" | EModel -> "EM" | ERbac -> "EB"
+  | EAdapter -> "EA" | EIo -> "EI"
+let outcome_str = function Ok b -> b01 b | Err e -> errc_str e | Panic -> "P"
+let sorted_rule l = enc_rule (List.map explode (List.sort compare (List.map implode l)))
+let sorted_rules l =
+  let l = List.sort compare (List.map (List.map implode) l) in
+  enc_rules (List.map (List.map explode) l)
+let answer_str = function
+  | AnsDec o -> outcome_str o
+  | AnsRules l -> enc_rules l
+  | AnsRuleBag l -> sorted_rules l
+  | AnsNames l -> enc_rule l
+  | AnsNameSet l -> sorted_rule l
+  | AnsBool b -> b01 b
+  | AnsPanic -> "P"
+let event_str = function
+  | EvAdd (s, p, r) -> Printf.sprintf "EA^%s^%s^%s" (enc s) (enc p) (enc_rule r)
+  | EvAddMany (s, p, r) -> Printf.sprintf "EAM^%s^%s^%s" (enc s) (enc p) (enc_rules r)
+  | EvRemove (s, p, r) -> Printf.sprintf "ER^%s^%s^%s" (enc s) (enc p) (enc_rule r)
+  | EvRemoveMany (s, p, r) -> Printf.sprintf "ERM^%s^%s^%s" (enc s) (enc p) (enc_rules r)
+  | EvRemoveFiltered (s, p, r) -> Printf.sprintf "ERF^%s^%s^%s" (enc s) (enc p) (enc_rules r)
+  | EvSave r -> Printf.sprintf "ES^%s" (enc_rules r)
+  | EvClear -> "EC"
+
+let run_eng_line (line : string) (spec : string) (ad : string) (flags : string) (steps : string) : string =
+  let table = ptab_of_line line in
+  let ptab t = List.assoc_opt t table in
+  let d = modeldef_of_spec spec in
+  match new_enforcer d (adapter_of_spec ad) (String.contains flags 'w') with
+  | (_, Err e) -> "new=" ^ errc_str e
+  | (_, Panic) -> "new=P"
+  | (s0, Ok _) ->
+    let s = ref s0 and poisoned = ref false in
+    let outs = if steps = "-" then [] else
+        List.map (fun st ->
+            if !poisoned then "X" else
+              match step_of st with
+              | SOp o -> let (s', r) = step !s o in
+                s := s';
+                (match r with Panic -> poisoned := true | _ -> ());
+                outcome_str r
+              | SQuery q -> answer_str (ask ptab !s q)
+              | SWlog -> if !s.e_wlog = [] then "-" else String.concat "+" (List.map event_str !s.e_wlog)
+              | SReload ->
+                let md = reload_view !s in
+                enc_rules (m_get_all md (explode "p") @ m_get_all md (explode "g")))
+          (String.split_on_char '|' steps) in
+    "new=1 r=" ^ String.concat "|" outs
+
 (* ---------- dispatch ---------- *)
-let run_case (toks : string list) : string =
+let run_case (line : string) (toks : string list) : string =
   match toks with
+  | ["eng"; spec; ad; flags; steps] | ["engc"; spec; ad; flags; steps] -> run_eng_line line spec ad flags steps
+  | ["twin"; spec; ad; flags; steps] ->
+    let r = run_eng_line line spec ad flags steps in r ^ " ## " ^ r
   | ["eff"; r; seq] -> show_eobs (observe_effector (erule_of r) (effs_of seq))
   | ["effnew"; e; c] ->
     (match new_stream (dec e) (nat_of_int (int_of_string c)) with
@@ -149,8 +419,12 @@ let () =
   | [_; "run"; f] ->
     let oc = stdout in
     List.iter (fun l ->
-        let r = try run_case (toks_of l) with e -> "?exn:" ^ Printexc.to_string e in
+        let r = try run_case l (toks_of l) with e -> "?exn:" ^ Printexc.to_string e in
         output_string oc r; output_char oc '\n') (read_lines f)
+  | [_; "prep"; f] ->
+    List.iter (fun l ->
+        let r = try prep_line l with e -> "?exn:" ^ Printexc.to_string e in
+        print_string r; print_char '\n') (read_lines f)
   | [_; "pred"; f; g] ->
     let cs = read_lines f and os = read_lines g in
     let rec go cs os = match cs, os with
